@@ -114,6 +114,16 @@ def impl_run(case):
             res['read'] = outcome(lambda: mciipm.vbs_bytes_to_list(f, blocked=blocked), lambda l: hlist(l) + '|END')
         else:
             res['read'] = rend_text(*read_all_impl(f, blocked))
+            if len(rs) >= 2 and len(f) % 3 == 0:
+                # two readers open on the file at the same time, asked for a record in turn
+                def both():
+                    ra, rb = mciipm.VbsReader(io.BytesIO(f), blocked=blocked), mciipm.VbsReader(io.BytesIO(f), blocked=blocked)
+                    a, b2 = [], []
+                    for x, y in zip(ra, rb):
+                        a.append(x)
+                        b2.append(y)
+                    return [a, b2]
+                res['two'] = outcome(both, lambda ab: hlist(ab[0]) + '|' + hlist(ab[1]))
     return res
 
 
@@ -143,6 +153,8 @@ def judge(case, io_, mo):
     want = 'OK ' + hlist(rs) + '|END'
     if io_.get('read') != want:
         ps.append({'kind': 'oracle', 'sig': 'roundtrip', 'msg': 'records read back differ from records written: %s' % str(io_.get('read'))[-60:]})
+    if 'two' in io_ and io_['two'] != 'OK ' + hlist(rs) + '|' + hlist(rs):
+        ps.append({'kind': 'oracle', 'sig': 'two-readers-in-turn', 'msg': 'two readers open on the same file and asked in turn do not both return the records written: %s' % io_['two'][-80:]})
     if mo is not None and not ps:
         n = len(stream)
         mf = bytes.fromhex(mo[0][3:]) if mo[0][3:] != '-' else b''
